@@ -135,7 +135,7 @@ def grammar_texts():
       '  if $a:\n    return 1\n  return 2', ' # c\n $a', '  $a\n  \n  $b', '  $a\n\n  $b', '  $a  ', '$a\t',
       '\f$a', '$a\f', ' \t$a\n \t$b', '\t$a\n  $b', '  $a\n\t$b', '    $a\n      + 1', '  ($a\n+ 1)', '$a \\\n  + 1',
       '  $a \\\n+ 1', '\n', ' ', '', '\t\n  \n', '$a\n\n\n', '  \n  $a\n', '\n$a', '\\\n$a', '$a \\', ' \\\n $a',
-      'x = $a\r\nx + 1', '$a\r\n', 'x = $a\rx + 1', '  $a\r\n  ', '$a\x0b', '$a \n', ' $a\n $b\n',
+      'x = $a\r\nx + 1', '$a\r\n', 'x = $a\rx + 1', '$a +\r$b', '$a\r', '# c\r$a', '$a +\x0c', '$a +\r\n', '  $a\r\n  ', '$a\x0b', '$a \n', ' $a\n $b\n',
       '        if $a > 1:\n            return 1\n        return 0')
   add('return', 'return $a', 'return', 'return $a, $b', 'return $a\n$b', 'x = $a\nreturn x * 2', 'return\n',
       'return $a;', 'return ($a\n  + 1)', 'return return $a', '  return $a', 'return $a if $a > 1 else None',
@@ -307,6 +307,8 @@ def reference_function(text):
   """
   if not text.strip():
     return lambda rec: None
+  # Python reads source with universal newlines (also inside string literals).
+  text = text.replace('\r\n', '\n').replace('\r', '\n')
   src = dedent(text)
   code = dollar_translate(src)
   try:
@@ -426,7 +428,7 @@ def expected_cells(text, rows):
 def value_feature(text):
   """Root-cause detail for a wrong value: the most specific construct the text contains."""
   try:
-    tree = ast.parse(dollar_translate(dedent(text)))
+    tree = ast.parse(dollar_translate(dedent(text.replace('\r\n', '\n').replace('\r', '\n'))))
   except Exception:      # pylint: disable=broad-except
     return 'other'
   nodes = list(ast.walk(tree))
@@ -507,14 +509,24 @@ def expected_good(rows):
           'good1': [r['a'] + 1 for r in rows], 'good2': [r['b'].upper() for r in rows]}
 
 
-def text_class(texts):
-  """Root-cause detail for a failed bundle: what the reference says about the (single) text."""
+def text_class(texts, err):
+  """Root-cause detail for a failed bundle: a control character Python treats specially, or what
+  the reference says about the (single) text plus the exception class."""
   if len(texts) != 1:
-    return 'batch'
-  exp = expected_cells(texts[0], ROWS0)
+    return 'batch/' + type(err).__name__
+  text = texts[0]
+  if '\x00' in text:
+    return 'NUL'
+  if '\r' in text.replace('\r\n', ''):
+    return 'lone-CR'
+  if '\x0c' in text:
+    return 'form-feed'
+  exp = expected_cells(text, ROWS0)
   if exp[0] == 'invalid':
-    return {'compile': 'compile-time-only-error', 'syntax': 'syntax-error'}.get(exp[1], exp[1])
-  return exp[0] + '-text'
+    cls = {'compile': 'compile-time-only-error', 'syntax': 'syntax-error'}.get(exp[1], exp[1])
+  else:
+    cls = exp[0] + '-text'
+  return '%s/%s' % (cls, type(err).__name__)
 
 
 def run_texts(mode, texts, reload_check=False):
@@ -532,7 +544,7 @@ def run_texts(mode, texts, reload_check=False):
   bundle = [["ModifyColumn", "T", x, {"formula": t}] for x, t in zip(xcols, texts)]
   _, err = doc.try_apply(bundle)
   if err is not None:
-    fails.append(('C19/bundle-failed/%s/%s' % (type(err).__name__, text_class(texts)),
+    fails.append(('C19/bundle-failed/%s' % text_class(texts, err),
                   "setting formula(s) %r failed: %s" % (texts if len(texts) > 1 else texts[0],
                                                         H.exc_text(err))))
     return verdicts, fails
